@@ -119,11 +119,15 @@ func (r *scopeRegistry) Report(reporter StatsReporter) {
 
 		for name, s := range subscopeBucket.s {
 			verifYieldKey(31, name)
-			s.report(reporter)
+			// Read the flag before reporting: what was recorded before Close
+			// was called is then part of this report, and the scope is only
+			// dropped after a report that started with the flag set.
+			closed := s.closed.Load()
 			verifYield(32)
+			s.report(reporter)
 
-			if s.closed.Load() {
-				r.removeWithRLock(subscopeBucket, name)
+			if closed {
+				r.removeWithRLock(subscopeBucket, name, s)
 				verifYield(34)
 				s.clearMetrics()
 			}
@@ -143,11 +147,15 @@ func (r *scopeRegistry) CachedReport() {
 
 		for name, s := range subscopeBucket.s {
 			verifYieldKey(31, name)
-			s.cachedReport()
+			// Read the flag before reporting: what was recorded before Close
+			// was called is then part of this report, and the scope is only
+			// dropped after a report that started with the flag set.
+			closed := s.closed.Load()
 			verifYield(32)
+			s.cachedReport()
 
-			if s.closed.Load() {
-				r.removeWithRLock(subscopeBucket, name)
+			if closed {
+				r.removeWithRLock(subscopeBucket, name, s)
 				verifYield(34)
 				s.clearMetrics()
 			}
@@ -217,8 +225,8 @@ func (r *scopeRegistry) Subscope(parent *scope, prefix string, tags map[string]s
 	// If a scope was found above but we didn't return, we need to remove the
 	// scope from both keys.
 	if ok {
-		r.removeWithRLock(subscopeBucket, unsanitizedKey)
-		r.removeWithRLock(subscopeBucket, sanitizedKey)
+		r.removeWithRLock(subscopeBucket, unsanitizedKey, s)
+		r.removeWithRLock(subscopeBucket, sanitizedKey, s)
 		verifYield(44)
 		s.clearMetrics()
 	}
@@ -238,10 +246,23 @@ func (r *scopeRegistry) Subscope(parent *scope, prefix string, tags map[string]s
 	defer subscopeBucket.mu.Unlock()
 
 	if s, ok := r.lockedLookup(subscopeBucket, sanitizedKey); ok {
-		if _, ok = r.lockedLookup(subscopeBucket, unsanitizedKey); !ok {
-			subscopeBucket.s[unsanitizedKey] = s
+		if !s.closed.Load() || s.testScope {
+			if _, ok = r.lockedLookup(subscopeBucket, unsanitizedKey); !ok {
+				subscopeBucket.s[unsanitizedKey] = s
+			}
+			return s
 		}
-		return s
+		// A closed scope is still registered under the sanitized key (it was
+		// requested through another spelling): report and drop it so that the
+		// caller gets a functional scope.
+		switch {
+		case parent.reporter != nil:
+			s.report(parent.reporter)
+		case parent.cachedReporter != nil:
+			s.cachedReport()
+		}
+		delete(subscopeBucket.s, sanitizedKey)
+		s.clearMetrics()
 	}
 
 	allTags := mergeRightTags(parent.tags, tags)
@@ -297,7 +318,7 @@ func (r *scopeRegistry) purgeIfRootClosed() {
 	}
 }
 
-func (r *scopeRegistry) removeWithRLock(subscopeBucket *scopeBucket, key string) {
+func (r *scopeRegistry) removeWithRLock(subscopeBucket *scopeBucket, key string, s *scope) {
 	// n.b. This function must lock the registry for writing and return it to an
 	//      RLocked state prior to exiting. Defer order is important (LIFO).
 	subscopeBucket.mu.RUnlock()
@@ -305,7 +326,11 @@ func (r *scopeRegistry) removeWithRLock(subscopeBucket *scopeBucket, key string)
 	verifYield(33)
 	subscopeBucket.mu.Lock()
 	defer subscopeBucket.mu.Unlock()
-	delete(subscopeBucket.s, key)
+	// The read lock was released above: the key may meanwhile belong to a new,
+	// live scope. Only remove the entry if it still is the scope being dropped.
+	if cur, ok := subscopeBucket.s[key]; ok && cur == s {
+		delete(subscopeBucket.s, key)
+	}
 }
 
 // Records internal Metrics' cardinalities.
